@@ -234,6 +234,19 @@ def itml_kappa(name, args, params, kw):
     return 1.0
 
 
+def lda_rank_short(X, y, k):
+  """discriminating predicate of known finding KF5: scikit-learn's LinearDiscriminantAnalysis itself returns fewer
+  than k discriminant directions for (X, y) (a singular value of the class-mean scatter below its 1e-4 relative
+  tolerance), so `scalings_.T[:k]` has fewer than k rows.  Decided with scikit-learn alone, not with metric-learn."""
+  from sklearn.discriminant_analysis import LinearDiscriminantAnalysis
+  try:
+    with quiet():
+      lda = LinearDiscriminantAnalysis(n_components=k).fit(np.asarray(X, dtype=float), np.asarray(y))
+    return lda.scalings_.shape[1] < k
+  except Exception:
+    return False
+
+
 def fit_call(sig, name, est, args, desc, params, expect=(), kw=None, report_kf=False):
   """est.fit(*args) through `call`; the recorded known finding KF-ITML (see DESIGN section 5) is
   turned into a counted Discard unless the calling property owns it (report_kf)."""
